@@ -13,6 +13,7 @@ use humphrey::verif::thread;
 use humphrey::verif::time::set_virtual_clock;
 use humphrey_server::cache::Cache;
 use humphrey_server::r#static::{directory_handler, file_handler};
+use humphrey_server::server::server::AppState;
 use rayon::prelude::*;
 use serde_json::json;
 use std::sync::{Arc, Mutex};
@@ -290,6 +291,95 @@ fn handler_histories(st: &mut Stats) {
     st.merge(s);
 }
 
+/// Neighbouring keys: requests whose (host, path) keys differ as little as possible (trailing slash, host index,
+/// a file route and a directory route under the same name, explicit index file), in every order, against one
+/// warm cache. The files never change, so the cache must be invisible: every response must equal the response the
+/// same handler call gives with the cache switched off.
+fn neighbouring_keys(st: &mut Stats, quick: bool) {
+    let mut s = Stats::default();
+    let dir = scratch("nk");
+    for d in ["d", "about", "other/d", "other/about"] {
+        std::fs::create_dir_all(dir.join(d)).unwrap();
+    }
+    std::fs::write(dir.join("d/index.html"), b"<d index>").unwrap();
+    std::fs::write(dir.join("about/index.html"), b"<about index>").unwrap();
+    std::fs::write(dir.join("about.txt"), b"about as a file").unwrap();
+    std::fs::write(dir.join("d.css"), b"d{}").unwrap();
+    std::fs::write(dir.join("other/d/index.html"), b"<other d index>").unwrap();
+    std::fs::write(dir.join("other/about/index.html"), b"<other about index>").unwrap();
+    let root = dir.to_str().unwrap().to_string();
+    let other = dir.join("other").to_str().unwrap().to_string();
+    let about_file = dir.join("about.txt").to_str().unwrap().to_string();
+    let css_file = dir.join("d.css").to_str().unwrap().to_string();
+    // (label, call)
+    type Call = Box<dyn Fn(Arc<AppState>) -> humphrey::http::Response + Sync>;
+    let dirreq = |uri: &'static str, base: String, host: usize| -> Call { Box::new(move |st| directory_handler(get(uri), st, &base, "/*", host)) };
+    let filereq = |uri: &'static str, file: String, host: usize| -> Call { Box::new(move |st| file_handler(get(uri), st, &file, host)) };
+    let menu: Vec<(&str, Call)> = vec![
+        ("dir /d/ host0", dirreq("/d/", root.clone(), 0)),
+        ("dir /d host0", dirreq("/d", root.clone(), 0)),
+        ("dir /d/index.html host0", dirreq("/d/index.html", root.clone(), 0)),
+        ("dir /d/ host1 (other directory)", dirreq("/d/", other.clone(), 1)),
+        ("dir /about/ host0", dirreq("/about/", root.clone(), 0)),
+        ("file /about host0", filereq("/about", about_file.clone(), 0)),
+        ("dir /about host1", dirreq("/about", root.clone(), 1)),
+        ("file /about/ host2", filereq("/about/", about_file.clone(), 2)),
+        ("dir /about/ host1 (other directory)", dirreq("/about/", other.clone(), 1)),
+        ("file /d host1 (css)", filereq("/d", css_file.clone(), 1)),
+        ("dir //d/ host0", dirreq("//d/", root.clone(), 0)),
+        ("dir /d// host0", dirreq("/d//", root.clone(), 0)),
+    ];
+    // no two calls share a (host, path) key: what a route answers for one key is one thing in any real configuration
+    // (a first version had a file route and a directory route answer the same key and took the cache's legitimate
+    // answer for a defect)
+    {
+        let mut keys: Vec<String> = menu.iter().map(|(l, _)| { let w: Vec<&str> = l.split(' ').collect(); format!("{} {}", w[1], w[2]) }).collect();
+        keys.sort();
+        keys.dedup();
+        assert_eq!(keys.len(), menu.len(), "menu keys must be distinct");
+    }
+    let conf = |size: usize| format!("server {{\n  log {{\n    console false\n  }}\n  cache {{\n    size {}\n    time 60\n  }}\n}}", size);
+    set_virtual_clock(Some(T0));
+    let view = |r: &humphrey::http::Response| (u16::from(r.status_code), r.body.clone(), r.headers.get("Content-Type").map(|x| x.to_string()), r.headers.get("Location").map(|x| x.to_string()));
+    let off = state_from(&conf(0));
+    let base: Vec<_> = menu.iter().map(|(_, c)| std::panic::catch_unwind(std::panic::AssertUnwindSafe(|| view(&c(off.clone())))).ok()).collect();
+    let len = if quick { 3 } else { 4 };
+    let mut code = vec![0usize; len];
+    'outer: loop {
+        // sequences of length 2..=len: shorter ones are prefixes
+        s.states += 1;
+        s.evaluations += 1;
+        s.nontrivial += 1;
+        let state = state_from(&conf(1 << 20));
+        for (step, &i) in code.iter().enumerate() {
+            s.transitions += 1;
+            let got = std::panic::catch_unwind(std::panic::AssertUnwindSafe(|| view(&menu[i].1(state.clone())))).ok();
+            if got != base[i] {
+                let class = match (&got, &base[i]) {
+                    (None, _) => "static handler panicked with the cache on",
+                    (Some(g), Some(b)) if g.0 != b.0 => "with a warm cache a request gets a different status than without a cache (another key's entry was served)",
+                    (Some(g), Some(b)) if g.1 != b.1 => "with a warm cache a request gets another entry's bytes",
+                    _ => "with a warm cache a request gets another entry's MIME type or headers",
+                };
+                s.violation(format!("neighbouring keys: {}", class), || json!({"sequence": code[..=step].iter().map(|&c| menu[c].0).collect::<Vec<_>>(), "with_cache": format!("{:?}", got.as_ref().map(|g| (g.0, show(&g.1), &g.2, &g.3))), "without_cache": format!("{:?}", base[i].as_ref().map(|g| (g.0, show(&g.1), &g.2, &g.3)))}));
+                break;
+            }
+            s.outcome(match got.as_ref().map(|g| g.0) { Some(200) => "nk-200", Some(301) => "nk-301", Some(404) => "nk-404", _ => "nk-other" });
+        }
+        for p in (0..len).rev() {
+            code[p] += 1;
+            if code[p] < menu.len() {
+                continue 'outer;
+            }
+            code[p] = 0;
+        }
+        break;
+    }
+    set_virtual_clock(None);
+    let _ = std::fs::remove_dir_all(&dir);
+    st.merge(s);
+}
+
 fn concurrent(cx: &mut Ctx) {
     // two threads x two requests through the real handlers and the RwLock, cache on
     let dir = scratch("e1");
@@ -376,6 +466,7 @@ pub fn run(mut cx: Ctx) -> ! {
     let mut st = Stats::default();
     histories(&mut st, depth);
     handler_histories(&mut st);
+    neighbouring_keys(&mut st, cx.quick());
     cx.stats.merge(st);
     concurrent(&mut cx);
     cx.assume("concurrency argument: every Cache operation runs inside one RwLock critical section and get takes &self over plain data, so concurrent histories are merges of the sequential ones enumerated here; the scheduler run guards that argument against edits that split or nest the critical sections");
